@@ -205,6 +205,11 @@ class SumOperator(LinearOperator):
         if from_inverse:
             raise NotImplementedError(
                 "cannot draw from inverse of this operator")
+        if any(self._neg):
+            # the sum of independent draws has the covariance of the sum of
+            # the summands, whatever their signs
+            raise NotImplementedError(
+                "cannot draw from a sum with subtracted operators")
         res = None
         for op in self._ops:
             from .simple_linear_operators import NullOperator
